@@ -558,6 +558,135 @@ pub fn script_scenario(prop: &str, shape: Shape, scripts: Vec<Vec<Op>>, oracle: 
           }
         }
       }
+      // ---- content of the two-input combinators (C04), whatever the interleaving
+      // was: the safety half for every history in which each input is driven by
+      // one thread (so that its own order is defined), the completeness half for
+      // undisturbed histories
+      if shape.two_inputs() {
+        let ops: Vec<Op> = calls.iter().map(|c| c.op).collect();
+        let threads_of = |is: &dyn Fn(&Op) -> bool| -> usize {
+          calls.iter().filter(|c| is(&c.op)).map(|c| c.thread).collect::<std::collections::BTreeSet<_>>().len()
+        };
+        let one_thread_each =
+          threads_of(&|o| matches!(o, Op::NextA(_))) <= 1 && threads_of(&|o| matches!(o, Op::NextB(_))) <= 1;
+        let a_items: Vec<Item> = ops.iter().filter_map(|o| if let Op::NextA(v) = o { Some(*v) } else { None }).collect();
+        let b_items: Vec<Item> = ops.iter().filter_map(|o| if let Op::NextB(v) = o { Some(*v) } else { None }).collect();
+        let undisturbed = !ops.iter().any(|o| matches!(o, Op::Unsubscribe | Op::UnsubSubject | Op::ErrorA | Op::Subscribe | Op::SubscribeNesting));
+        let a_done = ops.contains(&Op::CompleteA);
+        let b_done = ops.contains(&Op::CompleteB);
+        // completions issued after the items of the same input (same thread, later position)
+        let tidy = scripts.iter().all(|s| {
+          let ok = |done: Op, is: &dyn Fn(&Op) -> bool| match s.iter().position(|o| *o == done) {
+            Some(d) => s.iter().enumerate().all(|(i, o)| !is(o) || i < d),
+            None => true,
+          };
+          ok(Op::CompleteA, &|o| matches!(o, Op::NextA(_))) && ok(Op::CompleteB, &|o| matches!(o, Op::NextB(_)))
+        }) && {
+          // an input is completed by the thread that emits it
+          let owner = |done: Op, is: &dyn Fn(&Op) -> bool| {
+            scripts.iter().all(|s| !s.contains(&done) || scripts.iter().all(|t| std::ptr::eq(s, t) || !t.iter().any(|o| is(o))))
+          };
+          owner(Op::CompleteA, &|o| matches!(o, Op::NextA(_))) && owner(Op::CompleteB, &|o| matches!(o, Op::NextB(_)))
+        };
+        let notes = p0.notes();
+        let got: Vec<Item> = notes.iter().filter_map(|n| if let Note::N(v) = n { Some(*v) } else { None }).collect();
+        let idx = |items: &Vec<Item>, v: Item| items.iter().position(|x| *x == v);
+        let mut bad: Option<String> = None;
+        if one_thread_each {
+          match shape {
+            Shape::Zip => {
+              for (i, v) in got.iter().enumerate() {
+                let want = a_items.get(i).zip(b_items.get(i)).map(|(x, y)| pair((*x, *y)));
+                if want != Some(*v) {
+                  bad = Some(format!("output #{i} is {v}, the i-th items of the inputs give {want:?}"));
+                  break;
+                }
+              }
+              if bad.is_none() && undisturbed && tidy && got.len() != a_items.len().min(b_items.len()) {
+                bad = Some(format!("{} pairs delivered, the inputs allow exactly {}", got.len(), a_items.len().min(b_items.len())));
+              }
+            }
+            Shape::CombineLatest | Shape::WithLatestFrom => {
+              let mut prev: Option<(usize, usize)> = None;
+              for v in &got {
+                match (idx(&a_items, v / 1000), idx(&b_items, v % 1000)) {
+                  (Some(i), Some(j)) => {
+                    if let Some((pi, pj)) = prev {
+                      let ok = if shape == Shape::CombineLatest {
+                        (i == pi + 1 && j == pj) || (i == pi && j == pj + 1)
+                      } else {
+                        i > pi && j >= pj
+                      };
+                      if !ok {
+                        bad = Some(format!("combination ({},{}) after ({},{}) is not what one further arrival gives", a_items[i], b_items[j], a_items[pi], b_items[pj]));
+                      }
+                    }
+                    prev = Some((i, j));
+                  }
+                  _ => bad = Some(format!("output {v} is not a combination of an a-item and a b-item")),
+                }
+              }
+              if bad.is_none() && shape == Shape::CombineLatest && undisturbed && tidy && !a_items.is_empty() && !b_items.is_empty() {
+                let want = pair((*a_items.last().unwrap(), *b_items.last().unwrap()));
+                if got.last() != Some(&want) {
+                  bad = Some(format!("the last combination delivered is {:?}, the latest values of the inputs give {want}", got.last()));
+                }
+              }
+            }
+            Shape::TakeUntil => {
+              if got.len() > a_items.len() || got[..] != a_items[..got.len()] {
+                bad = Some("the output is not a prefix of the main input".into());
+              }
+            }
+            Shape::SkipUntil => {
+              let ok = match got.first().and_then(|v| idx(&a_items, *v)) {
+                None => got.is_empty(),
+                Some(k) => {
+                  k + got.len() <= a_items.len()
+                    && a_items[k..k + got.len()] == got[..]
+                    && (!(undisturbed && tidy) || k + got.len() == a_items.len())
+                }
+              };
+              if !ok {
+                bad = Some("the output is not a gap-free run of the main input reaching to its end".into());
+              }
+            }
+            Shape::Buffer => {
+              let mut flat: Vec<Item> = vec![];
+              for v in &got {
+                let mut b = vec![];
+                let mut x = *v;
+                while x > 0 {
+                  b.push(x % 100);
+                  x /= 100;
+                }
+                b.reverse();
+                flat.extend(b);
+              }
+              if flat.len() > a_items.len() || flat[..] != a_items[..flat.len()] {
+                bad = Some(format!("the concatenated buffers {flat:?} are not a prefix of the main input"));
+              } else if undisturbed && tidy && a_done && !b_done && flat != a_items {
+                bad = Some(format!("the main input completed; the concatenated buffers {flat:?} are not all of it"));
+              }
+            }
+            Shape::Merge | Shape::MergeTake => {
+              for items in [&a_items, &b_items] {
+                let pos: Vec<usize> = got.iter().filter_map(|v| idx(items, *v)).collect();
+                if pos.windows(2).any(|w| w[0] >= w[1]) {
+                  bad = Some("one input's items were delivered out of their own order or twice".into());
+                }
+              }
+            }
+            _ => {}
+          }
+        }
+        if let Some(b) = bad {
+          ctx.fail(
+            format!("{prop}:content:{}", shape.name()),
+            format!("a emitted {a_items:?}, b emitted {b_items:?}, output [{}]: {b}", fmt_notes(&notes)),
+          );
+        }
+      }
       // ---- rate limiting (C09): only source items, each at most once, in source
       // order; an undisturbed source that completed got its last item through
       // (debounce: always the final one; throttle with both edges: the first of
